@@ -33,6 +33,9 @@ pub struct Profile {
     /// thorough tier, every third run: larger deployment, history several times longer and
     /// a per-run random reweighting of the operation and environment mix (swarm)
     pub deep: bool,
+    /// percentage of runs that start with a long prelude of one-unit unbonds, one per epoch
+    /// (more than 255 batches: history keys, paging and cursors beyond one byte / one page)
+    pub long_history_pct: u32,
 }
 
 pub const N_OPS: usize = 20;
@@ -56,6 +59,7 @@ fn base_profile(name: &'static str) -> Profile {
         slash_first: false,
         dust_pct: 12,
         deep: false,
+        long_history_pct: 0,
     }
 }
 
@@ -91,11 +95,13 @@ pub fn profile_for(prop: &str) -> Profile {
         }
         "C07" => {
             p.name = "c07";
+            p.long_history_pct = 3;
             p.w = [12, 12, 14, 14, 3, 3, 10, 3, 1, 6, 3, 12, 0, 1, 2, 1, 1, 1, 2, 2];
             p.tx_fault_pct = 25;
         }
         "C08" => {
             p.name = "c08";
+            p.long_history_pct = 1;
             p.w = [10, 10, 16, 14, 2, 2, 20, 1, 0, 1, 0, 3, 0, 1, 2, 1, 3, 1, 0, 3];
             p.env = [2, 2, 3, 2, 2, 0, 0, 0];
             p.len = (40, 220);
@@ -270,6 +276,7 @@ pub struct Gen {
     pub emitted: u32,
     pub slashed_once: bool,
     pub paused_by_gen: bool,
+    pub prelude_left: u32,
 }
 
 impl Gen {
@@ -296,7 +303,8 @@ impl Gen {
             p.env_per_block_pct = *rng.pick(&[10u32, 35, 35, 60]);
             p.tx_fault_pct = *rng.pick(&[0u32, 10, 10, 30]);
         }
-        Gen { rng, p, fault_free, enabled_faults: enabled, delayed: vec![], blocks: 0, target_len, emitted: 0, slashed_once: false, paused_by_gen: false }
+        let prelude_left = if p.long_history_pct > 0 && rng.chance(p.long_history_pct as u64, 100) { rng.range(258, 330) as u32 } else { 0 };
+        Gen { rng, p, fault_free, enabled_faults: enabled, delayed: vec![], blocks: 0, target_len, emitted: 0, slashed_once: false, paused_by_gen: false, prelude_left }
     }
 
     pub fn done(&self) -> bool {
@@ -483,6 +491,8 @@ impl Gen {
                 if self.rng.chance(3, 4) {
                     Some(Op::IncAllowance { tok, owner, spender, amount: a.into(), exp })
                 } else {
+                    // a quarter of the decreases only change the expiration (amount 0)
+                    let a = if self.rng.chance(1, 4) { 0 } else { a };
                     Some(Op::DecAllowance { tok, owner, spender, amount: a.into(), exp })
                 }
             }
@@ -938,6 +948,21 @@ impl Gen {
 
     /// Next chunk of steps: one block with its environment events and transactions.
     pub fn next_block(&mut self, sim: &Sim) -> Vec<Step> {
+        // long-history prelude: one block per epoch, one tiny unbond in each (each closes a batch)
+        if self.prelude_left > 0 && sim.cfg.token_world.is_none() {
+            self.prelude_left -= 1;
+            self.blocks += 1;
+            let ep = sim.obs.hub.as_ref().map(|h| h.params.epoch_period).unwrap_or(1);
+            let mut steps = vec![Step::Block { dt: ep + 1 }];
+            let holder = self.holder(sim, Tok::B).or_else(|| self.holder(sim, Tok::St));
+            let tok = if self.holder(sim, Tok::B).is_some() { Tok::B } else { Tok::St };
+            let op = match holder {
+                Some((u, b)) if b > 0 => Op::Send { tok, from: u, to: HUB.into(), amount: 1u128.into(), hook: Hook::Unbond },
+                _ => Op::Bond { user: sim.cfg.user(0), amount: (self.prelude_left as u128 * 4 + 1000).into() },
+            };
+            steps.push(Step::Tx { op, abort_at: None, via: String::new() });
+            return steps;
+        }
         let mut steps = vec![];
         self.blocks += 1;
         steps.push(Step::Block { dt: self.gen_dt(sim) });
